@@ -39,4 +39,5 @@ def run(ctx):
                 "reads are repeated and a new session with the original parameters is opened",
            regen=ctx.pick(3, 8), bad_rate=0.03, empty_rate=0.0, observe_pairs=12, nvec=3,
            extra=lambda c, drf: cc.refusal_histories(c, drf, c.pick(12, 300))
-           + cc.multi_writer_histories(c, drf, c.pick(16, 150), npairs=2, nvec=0)[0])
+           + cc.multi_writer_histories(c, drf, c.pick(16, 150), npairs=2, nvec=0)[0]
+           + cc.fragmented_histories(c, drf, c.pick(3, 40), npairs=3, nvec=0))
